@@ -372,7 +372,7 @@ def run(ctx):
     base = ctx.seed * 100000
     n_prune = 260 if ctx.thorough else 44
     n_main = 60 if ctx.thorough else 10
-    n_custom = 16 if ctx.thorough else 4
+    n_custom = 24 if ctx.thorough else 8
     scs = []
     for i in range(n_prune):
         try:
@@ -401,6 +401,15 @@ def run(ctx):
             "type Query { obj(a: InA, c: Color): Obj plain: Int }\n",
         queries="query Plain { plain }\n", config={},
         notes={"shape": "f25-regression", "routes": {}, "ops_with_variables": 0, "n_inputs": 1}))
+    # Relay-style: a concrete type reachable only through its interface, arguments on the interface field
+    cust.insert(1, scenario.Scenario(
+        seed=-26, features=("prune",),
+        sdl="enum SortOrder { ASC DESC }\ninput ChildFilter { name: String }\n"
+            "interface Node { id: ID! children(filter: ChildFilter, order: SortOrder): [Node!] }\n"
+            "type Folder implements Node { id: ID! children(filter: ChildFilter, order: SortOrder): [Node!] size: Int }\n"
+            "type Query { node: Node plain: Int }\n",
+        queries="query Plain { plain }\n", config={},
+        notes={"shape": "relay-interface-args-regression", "routes": {}, "ops_with_variables": 0, "n_inputs": 1}))
     n3 = run_stream(ctx, cust, "custom_ops", extra_cfg={"enable_custom_operations": True}, n_plans=1)
     run.extra["scenarios"] = {"prune": n1, "main": n2, "custom_ops": n3}
     run.exhaustive = False
